@@ -53,9 +53,13 @@ TABLE = {
     "C19": dict(engine="E7 fwdx", technique="exhaustive enumeration of name sets and of type-description derivations through the real generator, output parsed by an independent recursive-descent parser; sample compiled by g++",
                 text="Every declarable set of <= 3 (4) qualified names over prefix-colliding identifiers and depth <= 2 (3), and every derivation to depth 3 (4) of a demangle-style type grammar: output is balanced, declares each requested class exactly once in its namespace and nothing else; fundamental types, cv-qualifiers, template names, std:: and yorel:: are skipped.", ref="3/C19",
                 note="Trusted base: compiler, harness e7/fwdx.cpp and its 40-line parser. Names outside the grammar (anonymous namespaces, classes nested in templates) are not covered."),
+    "C20": dict(engine="E5 progx", technique="exhaustive enumeration of a finite program family (all list shapes with product <= 6 x both front-end branches x all not_defined subsets; large products across the 512 split x patterns), each program compiled from /repo/include and self-checking at run time",
+                text="Every program of the family is compiled and run: the definitions found in the method's catalog are exactly the defined combinations, every combination dispatches to its own definition, product is row-major. Exhaustive over the stated family, including the divide-and-conquer aggregate above 512 elements.", ref="3/C20",
+                note="Trusted base: g++ 12, the generator table in lib/engines.py, e5/usedefs.cpp. A finite grammar of programs; list counts above 3 are not generated."),
 }
 
 ENGINES = [
+    {"name": "E5 progx", "path": "e5/", "serves_properties": ["C09", "C11", "C20"], "kind_free_text": "finite program-family enumerator: programs using the public templates/macros compiled from /repo/include, self-checking at run time"},
     {"name": "E2 histx", "path": "e1/drivers_history.hpp, e2/", "serves_properties": ["C03", "C07", "C14"], "kind_free_text": "explicit-state BFS over registration histories (fork-replayed) and exhaustive interleavings over several policies"},
     {"name": "E3 hashx", "path": "e3/", "serves_properties": ["C05"], "kind_free_text": "enumerator of id sets / publish histories / budgets over the real perfect-hash facets"},
     {"name": "E4 schedx", "path": "e4/", "serves_properties": ["C16"], "kind_free_text": "access-level preemption-bounded scheduler (own __tsan_* runtime) + explorer + real-TSan free-running pass"},
